@@ -3,7 +3,7 @@ Correspondence: the job events of one invocation are replayed through the Lean a
 Implementation monitors: the same generated project is built in fresh copies serially and at -j2..8, shuffled
 and not, with script durations drawn from the PRNG; execution counts, final contents, exit-status class and the
 abstracted dependency records must equal those of the serial build."""
-import random, shutil, sqlite3
+import random, re, shutil, sqlite3
 from common import *
 from proj import Project
 import sched
@@ -36,11 +36,13 @@ def once_events(trace, toppid, top_is_redo):
     return ev
 
 
-def par_replay(trace, deps_by_name, fid_of):
-    """Replay the job events of one invocation through the Lean acceptor Par.step (schedule independence, C07b): a script
-    is started only for an idle target and only because the top level or the command its requester is executing named it;
-    a `redo-ifchange` inside the script of t returns 0 only when everything it named is settled (built and recorded in
-    this run, or found clean); the script ends after its command.  Returns (answer, events, graph string)."""
+def par_replay(trace, deps_by_name, fid_of, failing=(), keep_going=False, tops=("all",)):
+    """Replay the job events of one invocation through the Lean acceptor ParF.step (schedule independence with failing
+    scripts, C07b/C07c): a script is started only for an idle target and only because the top level or the command its
+    requester is executing named it; a `redo-ifchange` inside the script of t returns 0 only when everything it named is
+    settled without failure (built and recorded in this run, or found clean), and non-zero only when something it named
+    has failed (with --keep-going: only when everything it named has an answer); a script whose command returned non-zero
+    ends failed; a failed target is never run again.  Returns (answer, events, graph string)."""
     shell_of = {}             # pid of a script's shell -> fid of the target it builds (hook job.child)
     target_of = {}            # pid of a redo process -> fid of the script that started it directly (None: top level, or a
                               # helper of the out-of-band rebuild, which is not a command of any script)
@@ -58,20 +60,21 @@ def par_replay(trace, deps_by_name, fid_of):
         elif name == "job.decide" and len(a) >= 2 and a[1] == "clean":
             if int(a[0]) not in settled:
                 ev.append("cl,%s" % a[0]); settled.add(int(a[0]))
-        elif name == "job.record.end" and len(a) >= 2 and a[1] == "0":
-            ev.append("fi,%s" % a[0]); settled.add(int(a[0]))
-        elif name == "run.end" and a and a[0] == "ok":
+        elif name == "job.record.end" and len(a) >= 2:
+            ev.append(("fi,%s" if a[1] == "0" else "fl,%s") % a[0]); settled.add(int(a[0]))
+        elif name == "run.end" and a:
             t = target_of.get(pid)
             if t is not None:
-                ev.append("rt,%d" % t)
+                ev.append("rt,%d,%d" % (t, 1 if a[0] == "ok" else 0))
     gs = []
     for nm, deps in sorted(deps_by_name.items()):
         if nm not in fid_of:
             continue
         ds = [str(fid_of[d]) for d in deps if d in fid_of]
-        gs.append("%d:%d:%s:%s" % (fid_of[nm], fid_of[nm], "_".join(ds) or "-", "_".join(ds) or "-"))
+        gs.append("%d:%d:%s:%s:%d" % (fid_of[nm], fid_of[nm], "_".join(ds) or "-", "_".join(ds) or "-", 1 if nm in failing else 0))
     graph = ";".join(gs) or "-"
-    ans = run_lines(MODEL, ["par-replay %s - %s" % (graph, ";".join(ev) if ev else "-")])[0]
+    tp = "_".join(str(fid_of[t]) for t in tops if t in fid_of) or "-"
+    ans = run_lines(MODEL, ["parf-replay %s %d %s %s" % (graph, 1 if keep_going else 0, tp, ";".join(ev) if ev else "-")])[0]
     return ans, ev, graph
 
 
@@ -114,6 +117,8 @@ def run(ctx):
         variants = [["-j1"], ["-j%d" % rng.randint(2, 4)], ["-j%d" % rng.randint(2, 8), "--shuffle"], ["-j1", "--shuffle"]]
         if thorough:
             variants += [["-j8"], ["-j3", "--shuffle"]]
+        if failing:
+            variants += [["-j1", "-k"], ["-j%d" % rng.randint(2, 4), "-k"]]
         results = []
         for v in variants:
             pr = Project()
@@ -154,11 +159,17 @@ def run(ctx):
                         dbn["zfam"] = list(fam)
                         for x in fam:
                             dbn[x] = []
-                    pans, pev, pgraph = par_replay(r.trace, dbn, fids_of(pr))
+                    pans, pev, pgraph = par_replay(r.trace, dbn, fids_of(pr), failing=[a for a, d in g.items() if d["fail"]], keep_going=("-k" in v))
                     stats["par_events"] = stats.get("par_events", 0) + len(pev)
+                    if pans.startswith("ok") and not r.timed_out:
+                        mstatus = int(re.search(r"status=(\d)", pans).group(1))
+                        if (mstatus == 0) != (r.rc == 0):
+                            p = write_replay("C07", "par-status-%d" % i, dict(kind="model-vs-impl", acceptor="ParF.status (RedoModel/ParF.lean)", scenario=scen, answer=pans, rc=r.rc, graph=pgraph, events=pev))
+                            viol.append(Violation("C07", p, "redo %s all (run %d): exit status %d, but the accepted job events leave the top target %s (model status class %d)" % (" ".join(v), phase + 1, r.rc, "settled without failure" if mstatus == 0 else "failed or unsettled", mstatus)))
+                            break
                     if not pans.startswith("ok"):
-                        p = write_replay("C07", "par-%d" % i, dict(kind="trace-rejected", acceptor="Par.step (RedoModel/Par.lean)", scenario=scen, answer=pans, graph=pgraph, events=pev,
-                                                                    replay="printf 'par-replay %s - %s\\n' | redomodel" % (pgraph, ";".join(pev))))
+                        p = write_replay("C07", "par-%d" % i, dict(kind="trace-rejected", acceptor="ParF.step (RedoModel/ParF.lean)", scenario=scen, answer=pans, graph=pgraph, events=pev,
+                                                                    replay="printf 'parf-replay %s %d - %s\\n' | redomodel" % (pgraph, 1 if "-k" in v else 0, ";".join(pev))))
                         viol.append(Violation("C07", p, "redo %s all (run %d): job events rejected by the schedule-independence acceptor: %s (event %s)" % (" ".join(v), phase + 1, pans,
                                       pev[int(pans.split("=")[1])] if "at=" in pans and int(pans.split("=")[1]) < len(pev) else "?")))
                         break
